@@ -75,7 +75,20 @@ def run_tiling(case):
         parent = []
         for k, q in enumerate(crops):
             ptab = _tables(gbt, d, crops[:k], [])
-            roi = np.s_[q[0]:q[1], q[2]:q[3]]
+            # the same block of tiles spelled the way users write it: open ends, negative stops / starts, a bare index for one row / column
+            ty, tx = (int(v) for v in gbt.shape.yx) if hasattr(gbt.shape, "yx") else tuple(gbt.shape)
+            style = (sum(q) + 3 * k + d.get("base", [0])[0]) % 4
+
+            def spell(a, b, n, st):
+                if st == 1:
+                    return slice(None if a == 0 else a, None if b == n else b)
+                if st == 2:
+                    return slice(a - n if a > 0 else a, b - n if b < n else None)
+                if st == 3 and b - a == 1:
+                    return a if a < n - 1 else -1
+                return slice(a, b)
+
+            roi = (spell(q[0], q[1], ty, style), spell(q[2], q[3], tx, style))
             if (k + q[1] + q[3]) % 2 == 0:
                 nxt = gbt.crop[roi]
             else:
@@ -130,10 +143,18 @@ def run_blocks(case):
     vals = (ids % 2 == 1) if dtype == np.bool_ else ids.astype(dtype)
     tiles = VariableSizedTiles((tuple(chy), tuple(chx)))
     blocks = {}
-    for r, c in case["present"]:
+    mixed = case.get("mixed")
+    for k, (r, c) in enumerate(case["present"]):
         ry, rx = tiles[r, c]
         sel = (slice(None),) * len(prefix) + (ry, rx) + (slice(None),) * len(postfix)
-        blocks[(r, c)] = vals[sel].copy()
+        if mixed and k == 0:
+            blocks[(r, c)] = vals[sel].astype(mixed)            # ids are small: they fit the narrow type
+        elif mixed:
+            blocks[(r, c)] = (vals[sel] + 1000).astype(dtype)   # values only the wide type can hold (mapped back to ids below)
+        else:
+            blocks[(r, c)] = vals[sel].copy()
+    if mixed and len(case["present"]) < 2:
+        dtype = np.dtype(mixed) if case["present"] else dtype
     w = case["win"]
     try:
         asm = BlockAssembler(blocks, (tuple(chy), tuple(chx)), axis=axis)
@@ -160,6 +181,8 @@ def run_blocks(case):
             return dict(e, outcome=f"dtype_changed_to_{out.dtype}", out=[])
         if np.issubdtype(out.dtype, np.floating):
             out = np.where(np.isnan(out), -1, out)
+        if mixed:
+            out = np.where(out.astype("int64") > 500, out.astype("int64") - 1000, out.astype("int64"))
         e["out"] = [[[int(v) for v in row] for row in plane] for plane in out]
         e["outcome"] = "ok"
     except Exception as ex:  # noqa: BLE001
